@@ -149,7 +149,11 @@ Theorem c16_step_invariant : forall h d s o s', hier_wf h -> inv h d s -> step h
 Proof. exact step_inv. Qed.
 
 (* [F] hence every history, on every grid, for every demand vector (induction over the op list); the boolean
-   checker used on the C++ states accepts the model's states *)
+   checker used on the C++ states accepts the model's states.  NOTE: for the Redistribute operation this is true BY
+   DEFINITION of its guard (redistribute requires perm_b (gather ..) (concat news), which is the partition condition):
+   genuine content for refineX/Y and coarsenX/Y; of the float-driven passes only rebisect is proved to be a
+   Redistribute step (c16_rebisect_is_redistribute); run / improve* / improveX/YTransport / reoptimize are tied only.
+   make_grid at bs = 0: nb_bins uses Z.quot, the model yields one bin where the C++ divides by zero (domain 1 <= bs). *)
 Theorem c16_partition_invariant : forall bs regs d ops h s',
   make_hier (make_grid bs regs) = Some h ->
   run_ops h (length d) (init_state h d) ops = Some s' -> inv h d s' /\ partition_okb h d s' = true.
@@ -197,7 +201,9 @@ Theorem c16_find_constrained_split_range : forall dem target c1 c2, (target <= l
 Proof. exact find_constrained_split_range. Qed.
 
 (* [F] reoptimize / improveX/YTransport, for EVERY assignment whose entries are bin indices (the range
-   statement of C13/C14): the reallocation loop hands back exactly the cells it gathered *)
+   statement of C13/C14): the reallocation loop hands back exactly the cells it gathered.  This is only "the
+   concatenation is a permutation"; it is NOT `redistribute s T news = Some _` (no NoDup / bins_valid, and the
+   cleared zero-capacity bins of reoptimize are not part of it). *)
 Theorem c16_reallocate_preserves_cells : forall nb cells assignment,
   length cells = length assignment -> (forall a, In a assignment -> (a < nb)%nat) ->
   perm_b cells (concat (reallocate nb cells assignment)) = true.
@@ -206,7 +212,10 @@ Proof. exact reallocate_preserves_cells. Qed.
 (* ---------------------------------------------------------------- 6. reported coordinates *)
 
 (* [F, exact arithmetic] spreadCells over Q, for every sort order: each cell of positive demand gets a
-   coordinate strictly inside its bin (the float evaluation is validated with a tolerance by ./check C16) *)
+   coordinate strictly inside its bin (the float evaluation is validated with a tolerance by ./check C16).  A
+   stand-alone lemma for arbitrary (order, mn, mx): no theorem connects it to a state of the hierarchy (cells of
+   bin (i,j) of a view, limits = level_limits): that link is OCaml glue; simpleCoord, binX/Y, groupCenter have no
+   theorem. *)
 Theorem c16_spread_inside : forall order mn mx c x,
   (forall p, In p order -> (0 <= snd p)%Q) -> (0 < sumQ (map snd order))%Q -> (mn < mx)%Q ->
   In (c, x) (spread_cells order mn mx) -> (mn < x /\ x < mx)%Q.
